@@ -226,6 +226,12 @@ impl Feig {
             };
             match response {
                 sequences::PartialReversalResponse::PartialReversalAbort(data) => {
+                    // The pending transactions are reported with 'error
+                    // pre-authorization'; everything else is a real abort.
+                    if data.error != constants::ErrorMessages::ErrorPreAuthorization as u8 {
+                        bail!(zvt::ZVTError::Aborted(data.error))
+                    }
+
                     // The 0xFFFF means no pending transactions.
                     let Some(receipt_no) = data.receipt_no else {
                         return Ok(vec![]);
